@@ -974,4 +974,415 @@ def gen_loop(repo):
     return Emit(entry, edges, tmpls, order).text()
 
 
-TARGETS = {'C05Loop': gen_loop}
+# =====================================================================================================
+# Generated/C05Grid.lean: which combination is which (SimulationParameters.get_unpacked_params_list,
+# get_num_unpacked_variations)
+# =====================================================================================================
+# The two methods are evaluated over a small algebra of list terms (loops over a symbolic list are executed once
+# with a symbolic element and summarised as a map / a family of dictionary entries):
+#   ('S',)                      self._unpacked_parameters_set (iteration order NOT defined)
+#   ('sorted', t)               sorted(t)
+#   ('vals', k)                 self.parameters[k]   (iter(..) / list(..) / tuple(..) are transparent)
+#   ('map', x, body, over)      [body for x in over]
+#   ('product', L)              itertools.product(*L)
+#   ('enumerate', L), ('idx', x), ('item', x), ('var', x), ('len', t), ('range', n), ('regular',)
+#   ('dict', [families]), families: ('zip', K, C) | ('fam', over, x, key, val) | ('regularfam',)
+#   ('create', d, i, parent)    SimulationParameters._create(d, i, parent)
+PCLASS = 'SimulationParameters'
+
+
+def _gerr(msg, node=None):
+    where = ' (line %d)' % node.lineno if node is not None and hasattr(node, 'lineno') else ''
+    raise TranslateError('C05Grid: ' + msg + where)
+
+
+class SymDict:
+    def __init__(self, depth):
+        self.fams, self.depth = [], depth
+
+
+class SymList:
+    def __init__(self, depth):
+        self.term, self.depth = None, depth
+
+
+def norm_len(t):
+    """len(..) of a term, up to the operations that keep the length"""
+    while t[0] in ('sorted',) or (t[0] == 'map'):
+        t = t[1] if t[0] == 'sorted' else t[3]
+    return ('len', t)
+
+
+def simp_term(t):
+    if not isinstance(t, tuple):
+        return t
+    t = tuple(simp_term(x) for x in t)
+    if t[0] == 'map':
+        _, x, body, over = t
+        if body == ('var', x):
+            return over
+        if over[0] == 'map':                       # fusion
+            _, y, b2, o2 = over
+            return simp_term(('map', y, subst_term(body, ('var', x), b2), o2))
+    if t[0] == 'len':
+        return norm_len(t[1])
+    return t
+
+
+def subst_term(t, old, new):
+    if t == old:
+        return new
+    if isinstance(t, tuple):
+        return tuple(subst_term(x, old, new) for x in t)
+    if isinstance(t, list):
+        return [subst_term(x, old, new) for x in t]
+    return t
+
+
+def freeze(v):
+    if isinstance(v, SymDict):
+        return ('dict', tuple(canon_fam(f) for f in v.fams))
+    if isinstance(v, SymList):
+        if v.term is None:
+            return ('list',)
+        return v.term
+    return v
+
+
+def canon_fam(f):
+    f = simp_term(f)
+    if f[0] == 'fam':
+        _, over, x, key, val = f
+        # for j in range(len K): d[K[j]] = C[j]   ==   zip(K, C)
+        if over[0] == 'range' and key[0] == 'get' and val[0] == 'get' and key[2] == ('var', x) and val[2] == ('var', x) \
+                and over[1] == norm_len(key[1]):
+            return ('zip', key[1], val[1])
+        if over == ('regular',) and key == ('var', x) and val == ('vals', ('var', x)):
+            return ('regularfam',)
+    return f
+
+
+class GridEval:
+    def __init__(self, tree, fn):
+        self.tree, self.fn = tree, fn
+        self.n = 0
+        self.loops = []
+        self.ret = None
+
+    def fresh(self):
+        self.n += 1
+        return 'v%d' % self.n
+
+    def run(self):
+        env = {'self': ('self',)}
+        r = self.block(self.fn.body, env)
+        return r
+
+    # returns ('ret', term) when the block returns on every path, else None; `if` guards are collected
+    def block(self, stmts, env):
+        self.guards = getattr(self, 'guards', [])
+        for s in stmts:
+            if isinstance(s, ast.Expr) and isinstance(s.value, ast.Constant):
+                continue
+            if isinstance(s, ast.Return):
+                return ('ret', freeze(self.ev(s.value, env)))
+            if isinstance(s, ast.FunctionDef):
+                rets = [x for x in s.body if not (isinstance(x, ast.Expr) and isinstance(x.value, ast.Constant))]
+                if len(rets) != 1 or not isinstance(rets[0], ast.Return) or s.decorator_list:
+                    _gerr('nested function outside the fragment', s)
+                env[s.name] = ('fn', [a.arg for a in s.args.args], rets[0].value, env)
+                continue
+            if isinstance(s, ast.If):
+                cond = self.ev(s.test, env)
+                if s.orelse:
+                    _gerr('if/else outside the fragment', s)
+                r = self.block(s.body, dict(env))
+                if r is None:
+                    _gerr('an `if` that does not return is outside the fragment', s)
+                self.guards.append((cond, r[1]))
+                continue
+            if isinstance(s, ast.Assign) and len(s.targets) == 1:
+                t = s.targets[0]
+                if isinstance(t, ast.Name):
+                    env[t.id] = self.ev(s.value, env)
+                    continue
+                if isinstance(t, ast.Subscript):
+                    self.setitem(self.ev(t.value, env), freeze(self.ev(t.slice, env)), freeze(self.ev(s.value, env)), s)
+                    continue
+                _gerr('assignment target outside the fragment', s)
+            if isinstance(s, ast.For):
+                if s.orelse or not isinstance(s.target, ast.Name):
+                    _gerr('for loop outside the fragment', s)
+                over = freeze(self.ev(s.iter, env))
+                x = self.fresh()
+                self.loops.append((x, over))
+                env2 = dict(env)
+                env2[s.target.id] = ('var', x)
+                if self.block(s.body, env2) is not None:
+                    _gerr('return inside a loop', s)
+                self.loops.pop()
+                continue
+            if isinstance(s, ast.Expr) and isinstance(s.value, ast.Call) and isinstance(s.value.func, ast.Attribute) \
+                    and s.value.func.attr == 'append' and len(s.value.args) == 1:
+                lst = self.ev(s.value.func.value, env)
+                if not isinstance(lst, SymList):
+                    _gerr('append to something that is not a local list', s)
+                wrap = self.loops[lst.depth:]
+                if len(wrap) != 1 or lst.term is not None:
+                    _gerr('list built in a way outside the fragment', s)
+                lst.term = simp_term(('map', wrap[0][0], freeze(self.ev(s.value.args[0], env)), wrap[0][1]))
+                continue
+            _gerr('statement outside the fragment: %s' % ast.unparse(s)[:60], s)
+        return None
+
+    def setitem(self, d, k, v, node):
+        if not isinstance(d, SymDict):
+            _gerr('item assignment to something that is not a local dictionary', node)
+        wrap = self.loops[d.depth:]
+        if len(wrap) != 1:
+            _gerr('dictionary filled in a way outside the fragment', node)
+        d.fams.append(('fam', wrap[0][1], wrap[0][0], k, v))
+
+    def comp(self, e, env, elt_fn):
+        if len(e.generators) != 1 or e.generators[0].ifs or e.generators[0].is_async:
+            _gerr('comprehension outside the fragment', e)
+        g = e.generators[0]
+        over = freeze(self.ev(g.iter, env))
+        x = self.fresh()
+        env2 = dict(env)
+        if isinstance(g.target, ast.Name):
+            env2[g.target.id] = ('var', x)
+        elif isinstance(g.target, ast.Tuple) and len(g.target.elts) == 2 and over[0] == 'enumerate' and \
+                all(isinstance(t, ast.Name) for t in g.target.elts):
+            env2[g.target.elts[0].id] = ('idx', x)
+            env2[g.target.elts[1].id] = ('item', x)
+        else:
+            _gerr('comprehension target outside the fragment', e)
+        self.loops.append((x, over))
+        body = freeze(elt_fn(env2))
+        self.loops.pop()
+        return simp_term(('map', x, body, over))
+
+    def ev(self, e, env):
+        if isinstance(e, ast.Name):
+            if e.id not in env:
+                _gerr('unknown name %s' % e.id, e)
+            return env[e.id]
+        if isinstance(e, ast.Constant) and (isinstance(e.value, int) or e.value is None):
+            return ('const', e.value)
+        if isinstance(e, ast.Attribute) and isinstance(e.value, ast.Name) and e.value.id == 'self':
+            if e.attr == '_unpacked_parameters_set':
+                return ('S',)
+            if e.attr == 'parameters':
+                return ('P',)
+            if e.attr == '_original_sim_params':
+                return ('parent',)
+            # a property of the class: its value is the value of its single return expression
+            props = [n for c in self.tree.body if isinstance(c, ast.ClassDef) and c.name == PCLASS for n in c.body
+                     if isinstance(n, ast.FunctionDef) and n.name == e.attr
+                     and any(ast.unparse(d) == 'property' for d in n.decorator_list)]
+            if len(props) == 1:
+                sub = GridEval(self.tree, props[0])
+                r = sub.run()
+                if r is None or sub.guards:
+                    _gerr('property %s outside the fragment' % e.attr, e)
+                return r[1]
+            _gerr('attribute self.%s outside the fragment' % e.attr, e)
+        if isinstance(e, ast.UnaryOp) and isinstance(e.op, ast.Not):
+            return ('not', freeze(self.ev(e.operand, env)))
+        if isinstance(e, ast.Compare) and len(e.ops) == 1:
+            return ('cmp', type(e.ops[0]).__name__, freeze(self.ev(e.left, env)), freeze(self.ev(e.comparators[0], env)))
+        if isinstance(e, ast.Subscript):
+            c, k = self.ev(e.value, env), freeze(self.ev(e.slice, env))
+            if c == ('P',):
+                return ('vals', k)
+            return ('get', freeze(c), k)
+        if isinstance(e, ast.Starred):
+            return ('star', freeze(self.ev(e.value, env)))
+        if isinstance(e, ast.Tuple):
+            return ('tuple', tuple(freeze(self.ev(x, env)) for x in e.elts))
+        if isinstance(e, ast.List) and len(e.elts) == 0:
+            return SymList(len(self.loops))
+        if isinstance(e, ast.List) and len(e.elts) == 1:
+            return ('single', freeze(self.ev(e.elts[0], env)))
+        if isinstance(e, ast.Dict) and not e.keys:
+            return SymDict(len(self.loops))
+        if isinstance(e, (ast.ListComp, ast.GeneratorExp)):
+            return self.comp(e, env, lambda env2: self.ev(e.elt, env2))
+        if isinstance(e, ast.BinOp) and isinstance(e.op, ast.Sub):
+            a, b = freeze(self.ev(e.left, env)), freeze(self.ev(e.right, env))
+            if a == ('keys', ('P',)) and b == ('S',):
+                return ('regular',)
+            _gerr('difference outside the fragment', e)
+        if isinstance(e, ast.Call):
+            return self.call(e, env)
+        _gerr('expression outside the fragment: %s' % ast.unparse(e)[:60], e)
+
+    def call(self, e, env):
+        f = ast.unparse(e.func)
+        if e.keywords:
+            _gerr('keyword arguments outside the fragment: %s' % ast.unparse(e)[:60], e)
+        if isinstance(e.func, ast.Name) and e.func.id in env and isinstance(env[e.func.id], tuple) and env[e.func.id][0] == 'fn':
+            _, names, body, cenv = env[e.func.id]
+            env2 = dict(cenv)
+            env2.update(zip(names, [self.ev(a, env) for a in e.args]))
+            return self.ev(body, env2)
+        if f in ('functools.reduce', 'reduce') and len(e.args) in (2, 3) and ast.unparse(e.args[0]) == 'operator.mul':
+            if len(e.args) == 3 and freeze(self.ev(e.args[2], env)) != ('const', 1):
+                _gerr('reduce with an initial value other than 1', e)
+            return ('prod', freeze(self.ev(e.args[1], env)))
+        args = [self.ev(a, env) for a in e.args]
+        fa = [freeze(a) for a in args]
+        if f in ('iter', 'list', 'tuple') and len(fa) == 1:
+            return fa[0]
+        if f == 'set' and len(fa) == 1 and fa[0] == ('keys', ('P',)):
+            return fa[0]
+        if f == 'sorted' and len(fa) == 1:
+            if fa[0][0] == 'sorted':
+                return fa[0]
+            return ('sorted', fa[0])
+        if f == 'len' and len(fa) == 1:
+            return norm_len(fa[0])
+        if f == 'range' and len(fa) == 1:
+            return ('range', fa[0])
+        if f == 'enumerate' and len(fa) == 1:
+            return ('enumerate', fa[0])
+        if f == 'zip' and len(fa) == 2:
+            return ('pairs', (('zip', fa[0], fa[1]),))
+        if f == 'itertools.chain':
+            fams = []
+            for a in fa:
+                fams.extend(self.as_pairs(a, e))
+            return ('pairs', tuple(fams))
+        if f == 'dict' and len(fa) == 1:
+            return ('dict', tuple(canon_fam(x) for x in self.as_pairs(fa[0], e)))
+        if f in ('OrderedDict', 'dict', 'collections.OrderedDict') and not fa:
+            return SymDict(len(self.loops))
+        if f == 'itertools.product' and len(fa) == 1 and fa[0][0] == 'star':
+            return ('product', fa[0][1])
+        if f == 'math.prod' and len(fa) == 1:
+            return ('prod', fa[0])
+        if f in ('SimulationParameters._create', 'self._create', 'cls._create') and len(fa) == 3:
+            return ('create', fa[0], fa[1], fa[2])
+        if isinstance(e.func, ast.Attribute):
+            recv = self.ev(e.func.value, env)
+            if e.func.attr == 'keys' and not fa:
+                if isinstance(recv, SymDict):
+                    fr = freeze(recv)[1]
+                    if len(fr) == 1 and fr[0][0] == 'fam' and fr[0][3] == ('var', fr[0][2]):
+                        return fr[0][1]
+                    _gerr('keys() of a dictionary built in a way outside the fragment', e)
+                if recv == ('P',):
+                    return ('keys', ('P',))
+            if e.func.attr == 'values' and not fa and isinstance(recv, SymDict):
+                fr = freeze(recv)[1]
+                if len(fr) == 1 and fr[0][0] == 'fam' and fr[0][3] == ('var', fr[0][2]):
+                    return simp_term(('map', fr[0][2], fr[0][4], fr[0][1]))
+                _gerr('values() of a dictionary built in a way outside the fragment', e)
+            if e.func.attr == 'get_num_unpacked_variations' and not fa and recv == ('parent',):
+                return ('parent-count',)
+        _gerr('call outside the fragment: %s' % ast.unparse(e)[:70], e)
+
+    def as_pairs(self, t, node):
+        if t[0] == 'pairs':
+            return list(t[1])
+        if t[0] == 'map' and t[2][0] == 'tuple' and len(t[2][1]) == 2:
+            return [('fam', t[3], t[1], t[2][1][0], t[2][1][1])]
+        _gerr('not a sequence of (key, value) pairs: %r' % (t[0],), node)
+
+
+def order_lean(t):
+    """the list of (name, values) pairs an order term denotes"""
+    if t == ('sorted', ('S',)):
+        return 'sortParams ps'
+    if t == ('S',):
+        _gerr('the combinations are produced in the iteration order of a set (names are not sorted)')
+    _gerr('order of the unpacked names outside the fragment: %r' % (t,))
+
+
+def gen_grid(repo):
+    tree = parse_file(os.path.join(repo, PARAMS))
+    # ---- get_unpacked_params_list
+    fn = find_fn(tree, 'get_unpacked_params_list', PCLASS)
+    ge = GridEval(tree, fn)
+    r = ge.run()
+    if r is None:
+        _gerr('get_unpacked_params_list does not end with a return')
+    empty_guard = False
+    for cond, val in ge.guards:
+        if cond in (('not', ('S',)), ('cmp', 'Eq', ('len', ('S',)), ('const', 0))) and val == ('single', ('self',)):
+            empty_guard = True
+        else:
+            _gerr('get_unpacked_params_list: guard outside the fragment: %r' % (cond,))
+    t = r[1]
+    # expected normal form
+    if not (t[0] == 'map' and t[3][0] == 'enumerate' and t[2][0] == 'create'):
+        _gerr('get_unpacked_params_list: the result is not [_create(v, i, self) for i, v in enumerate(..)]: %r' % (t[:1],))
+    z = t[1]
+    _, d, idx, parent = t[2]
+    if d != ('item', z) or parent != ('self',):
+        _gerr('get_unpacked_params_list: _create is not applied to (dictionary, index, self)')
+    if idx != ('idx', z):
+        _gerr('get_unpacked_params_list: the unpack index is not the position in the list')
+    dicts = t[3][1]
+    if not (dicts[0] == 'map' and dicts[2][0] == 'dict' and dicts[3][0] == 'product'):
+        _gerr('get_unpacked_params_list: the dictionaries are not built one per element of itertools.product(..)')
+    comb = dicts[1]
+    fams = list(dicts[2][1])
+    zips = [f for f in fams if f[0] == 'zip']
+    if len(zips) != 1 or zips[0][2] != ('var', comb) or [f for f in fams if f[0] not in ('zip', 'regularfam')]:
+        _gerr('get_unpacked_params_list: entries of a combination outside the fragment: %r' % (fams,))
+    if ('regularfam',) not in fams:
+        _gerr('get_unpacked_params_list: the regular parameters are not copied into the combinations')
+    keys = zips[0][1]
+    prod_arg = dicts[3][1]
+    if not (prod_arg[0] == 'map' and prod_arg[2] == ('vals', ('var', prod_arg[1]))):
+        _gerr('get_unpacked_params_list: the product is not over the value lists of the unpacked parameters')
+    prod_order = prod_arg[3]
+    if keys != prod_order:
+        _gerr('get_unpacked_params_list: names and values are paired in different orders (%r vs %r)' % (keys, prod_order))
+    order = order_lean(prod_order)
+    # ---- get_num_unpacked_variations
+    fn2 = find_fn(tree, 'get_num_unpacked_variations', PCLASS)
+    g2 = GridEval(tree, fn2)
+    r2 = g2.run()
+    if r2 is None:
+        _gerr('get_num_unpacked_variations does not end with a return')
+    one_guard = False
+    for cond, val in g2.guards:
+        if cond == ('cmp', 'IsNot', ('parent',), ('const', None)) and val == ('parent-count',):
+            continue      # a variation reports the count of the object it came from
+        if cond in (('not', ('S',)), ('cmp', 'Eq', ('len', ('S',)), ('const', 0))) and val == ('const', 1):
+            one_guard = True
+            continue
+        _gerr('get_num_unpacked_variations: guard outside the fragment: %r' % (cond,))
+    t2 = r2[1]
+    if not (t2[0] == 'prod' and t2[1][0] == 'map' and t2[1][2] == ('len', ('vals', ('var', t2[1][1])))
+            and t2[1][3] in (('S',), ('sorted', ('S',)))):
+        _gerr('get_num_unpacked_variations: not the product of the lengths of the unpacked parameters: %r' % (t2,))
+    L = ['-- GENERATED by harness/gen/c05.py from pyphysim/simulations/parameters.py. DO NOT EDIT.',
+         'import PyPhysim.Model.C05', '',
+         '/-!', 'Which combination is which: `SimulationParameters.get_unpacked_params_list` and',
+         '`get_num_unpacked_variations`, re-emitted from the AST (loops summarised as maps).', '-/',
+         'namespace PyPhysim.Generated.C05Grid', 'open PyPhysim.C05', '', 'variable {V : Type}', '',
+         '/-- the names, in the order in which `itertools.product` receives their value lists (first = slowest) -/',
+         'def unpackedNames (ps : List (Param V)) : List String := (%s).map (·.1)' % order, '',
+         '/-- the values of the unpacked parameters of every element of `get_unpacked_params_list()`, in list order -/',
+         'def unpackedValues (ps : List (Param V)) : List (List V) :=']
+    body = 'product ((%s).map (·.2))' % order
+    L.append('  if ps.isEmpty then [[]] else %s' % body if empty_guard else '  ' + body)
+    L += ['', '/-- element `i` of the list: (name, value) pairs of the unpacked parameters and its `_unpack_index` -/',
+          'def variation (ps : List (Param V)) (i : Nat) : Option (List (String × V) × Nat) :=',
+          '  ((unpackedValues ps)[i]?).map (fun c => ((unpackedNames ps).zip c, i))', '',
+          '/-- `get_num_unpacked_variations`: `reduce(operator.mul, lengths)` over the lengths of the unpacked',
+          '    parameters taken in the iteration order of a set, i.e. in ANY order -/',
+          'def numVariations : List Nat → Nat']
+    if one_guard:
+        L += ['  | [] => 1', '  | l :: ls => ls.foldl (· * ·) l']
+    else:
+        L += ['  | ls => ls.foldl (· * ·) 1']
+    L += ['', 'end PyPhysim.Generated.C05Grid']
+    return '\n'.join(L) + '\n'
+
+
+TARGETS = {'C05Loop': gen_loop, 'C05Grid': gen_grid}
